@@ -138,6 +138,10 @@ def random_pcirc(rng, nmax=5, shared_names=True):
         comp["S1"] = gen.contractive(rng, n, target=0.4, kind=rng.choice(["general", "symmetric"]))
         comp["param"] = rng.choice(pnames)
         comp["default"] = defaults[comp["param"]]
+        if rng.random() < 0.25:
+            # a plain fixed-matrix Model (no parameters of its own) among the parametric blocks
+            comp["fixed"] = True
+            comp["S1"] = [[gen.CZ for _ in range(n)] for _ in range(n)]
         del comp["S"]
     return circ, pnames
 
@@ -155,7 +159,7 @@ def at_point(pcirc, values):
 
 def pcirc_json(pcirc):
     return {"comps": [{"pins": c["pins"], "idx": c["idx"], "S0": gen.mat_json(c["S0"]), "S1": gen.mat_json(c["S1"]),
-                       "param": c["param"], "default": gen.frac_str(c["default"])} for c in pcirc["comps"]],
+                       "param": c["param"], "default": gen.frac_str(c["default"]), "fixed": bool(c.get("fixed"))} for c in pcirc["comps"]],
             "links": [list(l) for l in pcirc["links"]], "exposed": [list(e) for e in pcirc["exposed"]]}
 
 
@@ -166,7 +170,7 @@ def pcirc_from_json(j):
         n = len(c["pins"])
         un = lambda flat: [[parse_cfrac(z) for z in flat[i * n:(i + 1) * n]] for i in range(n)]
         comps.append({"pins": c["pins"], "idx": c["idx"], "S0": un(c["S0"]), "S1": un(c["S1"]), "param": c["param"],
-                      "default": Fraction(c["default"])})
+                      "default": Fraction(c["default"]), "fixed": bool(c.get("fixed"))})
     return {"comps": comps, "links": [tuple(l) for l in j["links"]], "exposed": [tuple(e) for e in j["exposed"]]}
 
 
